@@ -10,7 +10,13 @@ the cache layer that served the stale value (found by disabling one layer at a t
 Alphabet: turn(agent in {A,B}, text in {apple, pear fig}) | relabel node | upsert edge (same id, new weight) |
 upsert edge (same id, redirected) | add edge | add episode(owner A|B) | toggle kill switch | config change
 (k_retrieval, sim_threshold, ranking, owner_scope, exact_recent_days, t1.radius_cap, tiers) | cache clock += ttl+1
-| logical day += 40 | switch to an independent second state with the same graph ids / sizes.
+| logical day += 40 | logical clock +- 12 h | scheduler slice on/off | switch to an independent second state with the
+same graph ids / sizes.
+
+Second leg (configuration sweep, see SWEEP below): the same twin oracle over [turn, P, turn], [M, turn, turn] and
+[M, turn, P, turn] for a catalogue of single-parameter changes P covering every t1.* / t2.* parameter the validator
+accepts plus the perf.* / scheduler knobs the two stages read, M over the mode-selecting entries (quick) or the
+whole catalogue (thorough).  A turn in which the engine raises is an observation, not a harness error.
 """
 from __future__ import annotations
 
@@ -54,6 +60,185 @@ CFG_CHANGES = {
     "tiers_rev": {"t2": {"tiers": ["archive", "cluster_semantic", "exact_semantic"]}},
 }
 
+# ------------------------------------------------------------------ configuration-parameter sweep (second leg)
+# The statement quantifies over ALL configuration changes between turns, the history alphabet above carries only a
+# handful of them.  The sweep enumerates a catalogue of single-parameter changes covering the parameters the validator
+# accepts for the two cached stages (t1.*, t2.*, the perf.* and scheduler knobs they read; the keys left out are listed
+# with reasons in NOT_SWEPT and sweep_key_gaps() reports accepted keys nobody accounts for), each with values at which
+# the parameter can bite on the small worlds (zero / one / extreme), and runs
+#     [turn, change P, turn]                 (P alone)
+#     [change M, turn, turn]                 (a plain hit under M)
+#     [change M, turn, change P, turn]       (P changed while M is in force)
+# with M over the "mode" entries (quick) or over the whole catalogue (thorough): a parameter that is inert under the
+# default mode (t1.decay.alpha without attn_quad, hybrid weights without hybrid, perf caps without perf.enabled ...)
+# is only a cache-key obligation in the mode that reads it.  This leg examines the two stage caches; the turn-level
+# manager is off in both twin runs (see STAGE_ONLY).
+_SCHED_BASE = {"enabled": True, "quantum_ms": 10 ** 9, "budgets": {"wall_ms": 10 ** 9, "t1_iters": 50, "t2_k": 64, "t3_ops": 8}}
+_Q_ON = {"perf": {"enabled": True, "metrics": {"report_memory": True}}, "t2": {"quality": {"enabled": True}}}
+SWEEP = {
+    # --- T1 propagation
+    "t1_iter0": {"t1": {"iter_cap": 0}},
+    "t1_iter1": {"t1": {"iter_cap": 1}},
+    "t1_queue1": {"t1": {"queue_budget": 1}},
+    "t1_node_lo": {"t1": {"node_budget": 0.5}},
+    "t1_radius1": {"t1": {"radius_cap": 1}},
+    "decay_attn": {"t1": {"decay": {"mode": "attn_quad"}}},
+    "decay_rate0": {"t1": {"decay": {"rate": 0.0}}},
+    "decay_rate1": {"t1": {"decay": {"rate": 1.0}}},
+    "decay_floor0": {"t1": {"decay": {"floor": 0.0}}},
+    "decay_floor1": {"t1": {"decay": {"floor": 1.0}}},
+    "decay_alpha0": {"t1": {"decay": {"alpha": 0.0}}},
+    "decay_alpha_hi": {"t1": {"decay": {"alpha": 1.0e7}}},
+    "mult_sup0": {"t1": {"edge_type_mult": {"supports": 0.0, "associates": 0.6, "contradicts": 0.8}}},
+    "mult_assoc0": {"t1": {"edge_type_mult": {"supports": 1.0, "associates": 0.0, "contradicts": 0.8}}},
+    # --- perf gates and the T1/T2 knobs behind them
+    "perf_on": {"perf": {"enabled": True}},
+    "perf_off": {"perf": {"enabled": False}},
+    "metrics_on": {"perf": {"enabled": True, "metrics": {"report_memory": True}}},
+    "frontier1": {"perf": {"t1": {"caps": {"frontier": 1}}}},
+    "visited1": {"perf": {"t1": {"caps": {"visited": 1}}}},
+    "dedupe1": {"perf": {"t1": {"dedupe_window": 1}}},
+    "queue_cap1": {"perf": {"t1": {"queue_cap": 1}}},
+    "par": {"perf": {"parallel": {"enabled": True, "t1": True, "t2": True, "max_workers": 2}}},
+    "t2_fp16": {"perf": {"t2": {"embed_store_dtype": "fp16"}}},
+    "t2_norms": {"perf": {"t2": {"precompute_norms": True}}},
+    "t2_embed16": {"perf": {"t2": {"embed_dtype": "fp16"}}},
+    # --- T2 retrieval
+    "k2": {"t2": {"k_retrieval": 2}},
+    "thr0": {"t2": {"sim_threshold": 0.0}},
+    "days0": {"t2": {"exact_recent_days": 0}},
+    "rank_sim": {"t2": {"ranking": {"alpha_sim": 1.0, "beta_recency": 0.0}}},
+    "tiers_exact": {"t2": {"tiers": ["exact_semantic"]}},
+    "tiers_cluster": {"t2": {"tiers": ["cluster_semantic"]}},
+    "top_m1": {"t2": {"clusters_top_m": 1}},
+    "top_m0": {"t2": {"clusters_top_m": 0}},
+    "resid0": {"t2": {"residual_cap_per_turn": 0}},
+    "resid1": {"t2": {"residual_cap_per_turn": 1}},
+    "reader_auto": {"t2": {"reader": {"mode": "auto"}}},
+    "reader_batch1": {"t2": {"reader_batch": 1}},
+    "owner_world": {"t2": {"owner_scope": "world"}},
+    "k_surface16": {"k_surface": 16},
+    # --- T2 hybrid rerank
+    "hyb_on": {"t2": {"hybrid": {"enabled": True}}},
+    "hyb_lambda1": {"t2": {"hybrid": {"lambda_graph": 1.0}}},
+    "hyb_anchor1": {"t2": {"hybrid": {"anchor_top_m": 1}}},
+    "hyb_hops2": {"t2": {"hybrid": {"walk_hops": 2}}},
+    "hyb_thr_hi": {"t2": {"hybrid": {"edge_threshold": 0.9}}},
+    "hyb_damp0": {"t2": {"hybrid": {"damping": 0.0}}},
+    "hyb_invdeg": {"t2": {"hybrid": {"degree_norm": "invdeg"}}},
+    "hyb_bonus0": {"t2": {"hybrid": {"max_bonus": 0.0}}},
+    "hyb_kmax1": {"t2": {"hybrid": {"k_max": 1}}},
+    "hyb_nograph": {"t2": {"hybrid": {"use_graph": False}}},
+    # --- T2 quality layer (fusion / MMR), switched on together with the gates it documents
+    "q_on": _Q_ON,
+    "q_fusion": W.deep_merge(_Q_ON, {"t2": {"quality": {"fusion": {"enabled": True, "alpha_semantic": 0.5}}}}),
+    "q_fusion_lex": {"t2": {"quality": {"fusion": {"alpha_semantic": 0.0}}}},
+    "q_mmr": W.deep_merge(_Q_ON, {"t2": {"quality": {"mmr": {"enabled": True, "lambda": 0.5, "k": 3}}}}),
+    "q_mmr_div": {"t2": {"quality": {"mmr": {"lambda": 0.0}}}},
+    "q_mmr_k1": {"t2": {"quality": {"mmr": {"k": 1}}}},
+    "q_salt": {"t2": {"quality": {"cache": {"salt": "s2"}}}},
+    "q_score_norm": {"t2": {"quality": {"fusion": {"score_norm": "minmax"}}}},
+    "q_mmr_owner": {"t2": {"quality": {"mmr": {"diversity_by_owner": True}}}},
+    "q_mmr_token": {"t2": {"quality": {"mmr": {"diversity_by_token": False}}}},
+    "q_mmr_kfinal": {"t2": {"quality": {"mmr": {"k_final": 1}}}},
+    "q_norm_off": {"t2": {"quality": {"normalizer": {"enabled": False}}}},
+    "q_norm_minlen": {"t2": {"quality": {"normalizer": {"min_token_len": 5}}}},
+    "q_norm_stem": {"t2": {"quality": {"normalizer": {"stemmer": "porter-lite"}}}},
+    "q_norm_stop": {"t2": {"quality": {"normalizer": {"stopwords": "none"}}}},
+    "q_lex_off": {"t2": {"quality": {"lexical": {"enabled": False}}}},
+    "q_lex_stop": {"t2": {"quality": {"lexical": {"stopwords": "none"}}}},
+    "q_bm25_k1": {"t2": {"quality": {"lexical": {"bm25": {"k1": 0.1}}}}},
+    "q_bm25_b": {"t2": {"quality": {"lexical": {"bm25": {"b": 0.0}}}}},
+    "q_bm25_floor": {"t2": {"quality": {"lexical": {"bm25": {"doclen_floor": 50}}}}},
+    "q_alias_on": {"t2": {"quality": {"aliasing": {"enabled": True, "max_expansions_per_token": 1}}}},
+    # --- scheduler slice budgets the stages clamp to
+    "sched_on": {"scheduler": _SCHED_BASE},
+    "sched_iters1": {"scheduler": W.deep_merge(_SCHED_BASE, {"budgets": {"t1_iters": 1}})},
+    "sched_pops1": {"scheduler": W.deep_merge(_SCHED_BASE, {"budgets": {"t1_pops": 1}})},
+    "sched_t2k1": {"scheduler": W.deep_merge(_SCHED_BASE, {"budgets": {"t2_k": 1}})},
+    # --- graph evolution layer (feeds the hybrid rerank)
+    "gel": W.CONFIG_MENU["gel"],
+    # hybrid rerank over a graph that the evolution layer rewrites every turn
+    "hyb_gel": W.deep_merge(W.CONFIG_MENU["gel"], {"t2": {"hybrid": {"enabled": True}}}),
+}
+# the history alphabet's own changes are swept as well
+SWEEP_PARAMS = sorted(set(SWEEP) | {"k1", "thr", "rank", "owner", "days", "radius", "tiers", "tiers_rev"})
+# entries that select an alternative code path of a stage (quick tier: first change ranges over these only)
+SWEEP_MODES = ["decay_attn", "decay_floor0", "t1_node_lo", "perf_on", "metrics_on", "par", "owner", "hyb_on", "q_on",
+               "q_fusion", "q_mmr", "sched_on", "gel", "hyb_gel"]
+SWEEP_CACHE_CONFIGS = ("lru_ttl_stage", "bytes_stage")
+CFG_CHANGES.update(SWEEP)
+
+
+def _leaf_paths(d, pre=()):
+    for k, v in d.items():
+        if isinstance(v, dict) and v:
+            yield from _leaf_paths(v, pre + (str(k),))
+        else:
+            yield pre + (str(k),)
+
+
+def _stage_of(name):
+    """which cached stage a catalogued change addresses: 't1', 't2' or 'both' (gates, scheduler, graph layer)"""
+    tops = set()
+    for p in _leaf_paths(CFG_CHANGES[name]):
+        tops.add(p[0] if p[0] in ("t1", "t2") else (p[1] if p[0] == "perf" and len(p) > 1 and p[1] in ("t1", "t2") else "both"))
+    stages = tops & {"t1", "t2"}   # a stage switch that brings its gates along (quality + perf gates) belongs to the stage
+    return stages.pop() if len(stages) == 1 else "both"
+
+
+# accepted keys that the sweep deliberately leaves out, with the reason (reported in the evidence notes)
+NOT_SWEPT = {
+    "t2.backend": "external store", "t2.lancedb": "external store", "t2.archive": "external store",
+    "t2.embed_root": "on-disk embed store", "perf.t2.reader": "on-disk partitioned reader",
+    "t2.quality.shadow": "trace writing only", "t2.quality.trace_dir": "trace writing only", "t2.quality.redact": "trace writing only",
+    "t2.quality.aliasing.map_path": "needs an alias map file",
+    "t2.quality.normalizer.case": "single legal value", "t2.quality.normalizer.unicode": "single legal value",
+    "t2.quality.fusion.mode": "single legal value",
+    "t2.quality.lexical.bm25_k1": "flat alias of lexical.bm25.k1", "t2.quality.lexical.bm25_b": "flat alias of lexical.bm25.b",
+    "t2.quality.mmr.lambda_relevance": "alias of mmr.lambda",
+    "perf.parallel.agents": "driver-level switch, not read by the stages",
+}
+
+
+def sweep_key_gaps():
+    """accepted configuration keys of the two stages (per the validator's own tables) that neither the catalogue nor
+    NOT_SWEPT accounts for; informational (a key added to the validator later shows up here)"""
+    try:
+        import configs.validate as V
+    except Exception:
+        return ["<validator tables not importable>"]
+    want = []
+
+    def need(prefix, table, skip=()):
+        for k in sorted(getattr(V, table, ()) or ()):
+            if k not in skip:
+                want.append(prefix + "." + k)
+    need("t1", "ALLOWED_T1", ("cache",))
+    want.extend("t1.decay." + k for k in ("mode", "rate", "floor", "alpha"))
+    need("t2", "ALLOWED_T2", ("cache",))
+    need("t2.ranking", "ALLOWED_RANKING_FIELDS")
+    need("t2.hybrid", "ALLOWED_T2_HYBRID")
+    need("t2.reader", "ALLOWED_T2_READER")
+    need("t2.quality", "ALLOWED_T2_QUALITY")
+    need("t2.quality.normalizer", "ALLOWED_T2_QUALITY_NORMALIZER")
+    need("t2.quality.aliasing", "ALLOWED_T2_QUALITY_ALIASING")
+    need("t2.quality.lexical", "ALLOWED_T2_QUALITY_LEXICAL")
+    need("t2.quality.lexical.bm25", "ALLOWED_T2_QUALITY_BM25")
+    need("t2.quality.fusion", "ALLOWED_T2_QUALITY_FUSION")
+    need("t2.quality.mmr", "ALLOWED_T2_QUALITY_MMR")
+    need("t2.quality.cache", "ALLOWED_T2_QUALITY_CACHE")
+    need("perf.t1", "ALLOWED_PERF_T1", ("cache",))
+    need("perf.t1.caps", "ALLOWED_PERF_T1_CAPS")
+    need("perf.t2", "ALLOWED_PERF_T2", ("cache",))
+    need("perf.parallel", "ALLOWED_PERF_PARALLEL")
+    covered = set()
+    for name in SWEEP_PARAMS:
+        for p in _leaf_paths(CFG_CHANGES[name]):
+            for i in range(1, len(p) + 1):
+                covered.add(".".join(p[:i]))
+    return [w for w in want if w not in covered and w not in NOT_SWEPT]
+
 # scheduler slice with a tight layer budget (time budgets out of reach): every seeded turn yields at the T1 boundary,
 # its T1 result is still observed; toggled on/off by the SCHED operation
 SCHED_ON = {"scheduler": {"enabled": True, "quantum_ms": 10 ** 9, "budgets": {"wall_ms": 10 ** 9, "t1_iters": 1, "t2_k": 64, "t3_ops": 8}}}
@@ -65,6 +250,13 @@ CACHE_CONFIGS = {
                        "t2": {"cache": {"max_entries": 8, "max_bytes": 1000000}}}},
     "turnlevel_only": {"t1": {"cache": {"enabled": False}}, "t2": {"cache": {"enabled": False}}},
 }
+# the sweep leg examines the two stage caches: the turn-level manager is off in both twin runs there (its blindness to
+# configuration changes while the state version does not move - kill switch off, or a scheduler slice that yields
+# before apply - is the listed known finding and is not re-derived per parameter)
+STAGE_ONLY = {"t4": {"cache": {"enabled": False}}}
+ALL_CACHE_CONFIGS = dict(CACHE_CONFIGS)
+ALL_CACHE_CONFIGS["lru_ttl_stage"] = W.deep_merge(CACHE_CONFIGS["lru_ttl"], STAGE_ONLY)
+ALL_CACHE_CONFIGS["bytes_stage"] = W.deep_merge(CACHE_CONFIGS["bytes"], STAGE_ONLY)
 OFF = {"t1": {"cache": {"enabled": False}}, "t2": {"cache": {"enabled": False}}, "t4": {"cache": {"enabled": False}}}
 LAYER_OFF = {
     "t1": {"t1": {"cache": {"enabled": False}}, "perf": {"t1": {"cache": {"max_entries": 0, "max_bytes": 0}}}},
@@ -127,13 +319,21 @@ def _t1_obs(t1):
     m = dict(getattr(t1, "metrics", {}) or {})
     for k in ("cache_hits", "cache_misses", "cache_used", "cache_enabled", "max_delta", "t1.cache_evictions", "t1.cache_bytes"):
         m.pop(k, None)
+    # perf counters that exist only under perf.enabled + perf.metrics.report_memory and, like max_delta, are measured on a
+    # fresh computation only (a hit reports 0): diagnostics, not judged
+    for k in ("t1_frontier_evicted", "t1_dedup_hits", "t1_visited_evicted"):
+        m.pop(k, None)
     return {"deltas": list(getattr(t1, "graph_deltas", []) or []), "metrics": m}
 
 
 def _t2_obs(t2):
     m = dict(getattr(t2, "metrics", {}) or {})
     for k in list(m):
-        if k.startswith("cache_") or k.startswith("t2.cache"):
+        # cache diagnostics, and the namespaced reporting block (t2.* / t2q.*: echoes of perf / quality settings) that exists
+        # only under perf.enabled + perf.metrics.report_memory: the statement's observation points are the retrieved
+        # ids / order / scores, the residual deltas and k_used, so a cached result carrying the echoes of the turn that
+        # computed it is not judged
+        if k.startswith("cache_") or k.startswith("t2.") or k.startswith("t2q."):
             m.pop(k)
     items = [(str(getattr(r, "id", None)), round(float(getattr(r, "score", 0.0)), 9)) for r in (getattr(t2, "retrieved", []) or [])]
     return {"items": items, "residual": list(getattr(t2, "graph_deltas_residual", []) or []), "metrics": m}
@@ -145,12 +345,12 @@ def execute(history, cache_cfg, caches_on, scratch, extra_off=None):
     ex = W.Exec(scratch, "c05")
     ex.activate()
     fake = FakeClock()
-    base = copy.deepcopy(CACHE_CONFIGS[cache_cfg])
+    base = copy.deepcopy(ALL_CACHE_CONFIGS[cache_cfg])
     if not caches_on:
         base = off_cfg(base)
     if extra_off:
         base = W.deep_merge(base, extra_off)
-        if "perf" not in CACHE_CONFIGS[cache_cfg]:
+        if "perf" not in ALL_CACHE_CONFIGS[cache_cfg]:
             base.pop("perf", None)
     dyn = {}
     states = [W.make_world("W2"), world_b()]   # W2: three graphs, two of them match "apple" (per-graph cache entries)
@@ -211,11 +411,29 @@ def execute(history, cache_cfg, caches_on, scratch, extra_off=None):
                     over = W.deep_merge(over, {"t4": {"enabled": False}})
                 if sched:
                     over = W.deep_merge(over, SCHED_ON)
-                cfg = cfg_for(over, ex.snap_dir)
+                try:
+                    cfg = cfg_for(over, ex.snap_dir)
+                except HarnessError:
+                    raise
+                except Exception as e:
+                    # the validator refuses this combination of changes: not a cache matter; the turn is not run
+                    # (same in the twin run, whose configuration differs in the cache switches only)
+                    obs.append({"t1": {"cfg_rejected": type(e).__name__}, "t2": None, "line": None})
+                    continue
                 now = W._ts(-day)
                 ctx = W.make_ctx(cfg, op[1], turn, now=now)
                 captured.clear()
-                res = orch_core.run_turn(ctx, st, op[2])
+                try:
+                    res = orch_core.run_turn(ctx, st, op[2])
+                except HarnessError:
+                    raise
+                except Exception as e:
+                    # the engine raised: observed like any other outcome, so that "raises with caches on, answers with
+                    # caches off" (or the reverse) is a reported difference and not a harness crash
+                    err = "%s: %s" % (type(e).__name__, str(e)[:160])
+                    obs.append({"t1": (_t1_obs(captured["t1"]) if "t1" in captured else {"raised": err}),
+                                "t2": (_t2_obs(captured["t2"]) if "t2" in captured else None), "line": {"raised": err}})
+                    continue
                 if "t1" not in captured:
                     raise HarnessError("t1 seam not reached")
                 # a turn that yields at the T1 boundary never computes T2: observed as None in both twin runs
@@ -287,6 +505,21 @@ def fails(history, cache_cfg, scratch, extra_off=None):
     return d, leak, on, off
 
 
+def _section(name):
+    """configuration section a catalogued change belongs to (t1.decay, t2.hybrid, perf.t1, scheduler, ...)"""
+    paths = set()
+
+    def walk(d, pre):
+        for k, v in d.items():
+            if isinstance(v, dict) and v:
+                walk(v, pre + (str(k),))
+            else:
+                paths.add(pre + (str(k),))
+    walk(CFG_CHANGES[name], ())
+    secs = {".".join(p[:2] if p[0] in ("t1", "t2", "perf") else p[:1]) for p in paths}
+    return max(secs)
+
+
 def classify(history, cache_cfg, scratch):
     """(signature, what) for a failing, already minimal history."""
     d, leak, on, off = fails(history, cache_cfg, scratch)
@@ -299,10 +532,14 @@ def classify(history, cache_cfg, scratch):
     kinds = []
     agents = [op[1] for op in history if op[0] == "T"]
     texts = [op[2] for op in history if op[0] == "T"]
+    swept = any(op[0] == "CFG" and op[1] in SWEEP for op in history)
     for op in history:
         if op[0] == "T":
             continue
-        kinds.append(op[0] if op[0] not in ("CFG", "EP") else "%s(%s)" % (op[0], op[1]))
+        if swept and op[0] == "CFG":
+            kinds.append("CFG[%s]" % _section(op[1]))   # sweep leg: one signature per configuration section, not per value
+        else:
+            kinds.append(op[0] if op[0] not in ("CFG", "EP") else "%s(%s)" % (op[0], op[1]))
     if len(set(agents)) > 1:
         kinds.append("agent_switch")
     if len(set(texts)) > 1:
@@ -338,33 +575,91 @@ def is_minimal(history, cache_cfg, scratch):
     return True
 
 
+def _judge(history, cache_cfg, st: Stats, scratch):
+    """One history through the twin oracle; returns the caches-off observations."""
+    d, leak, on, off = fails(history, cache_cfg, scratch)
+    nt = sum(1 for o in history if o[0] == "T")
+    st.add("transitions", 2 * len(history))
+    st.add("validated", nt)
+    st.add("histories")
+    st.distinct("states", (cache_cfg, W.jd(on[-1]["t1"]), W.jd(on[-1]["t2"])))
+    if on[-1]["t2"] is None:
+        st.add("turns_yielded_at_t1")
+    if any("raised" in (o.get("line") or {}) for o in on + off if isinstance(o.get("line"), dict)):
+        st.add("histories_with_a_raising_turn")
+    if nt >= 2:
+        st.add("nontrivial")
+    if d is None and not leak:
+        st.distinct("outcomes", ("ok", cache_cfg, W.jd((on[-1]["t2"] or {}).get("items"))))
+        return off
+    st.add("failing_histories")
+    if not is_minimal(history, cache_cfg, scratch):
+        st.add("failing_non_minimal")
+        return off
+    sig, what = classify(history, cache_cfg, scratch)
+    st.distinct("outcomes", ("fail", sig))
+    st.violation(sig, what, {"cache_cfg": cache_cfg, "history": history})
+    return off
+
+
 def _worker(chunk, st: Stats, scratch):
     import logging
     logging.disable(logging.CRITICAL)
     for cache_cfg, history in chunk:
-        history = [list(o) for o in history]
-        d, leak, on, off = fails(history, cache_cfg, scratch)
-        nt = sum(1 for o in history if o[0] == "T")
-        st.add("transitions", 2 * len(history))
-        st.add("validated", nt)
-        st.add("histories")
-        st.distinct("states", (cache_cfg, W.jd(on[-1]["t1"]), W.jd(on[-1]["t2"])))
-        if on[-1]["t2"] is None:
-            st.add("turns_yielded_at_t1")
-        if nt >= 2:
-            st.add("nontrivial")
-        if d is None and not leak:
-            st.distinct("outcomes", ("ok", cache_cfg, W.jd((on[-1]["t2"] or {}).get("items"))))
-            continue
-        st.add("failing_histories")
-        if not is_minimal(history, cache_cfg, scratch):
-            st.add("failing_non_minimal")
-            continue
-        sig, what = classify(history, cache_cfg, scratch)
-        st.distinct("outcomes", ("fail", sig))
-        st.violation(sig, what, {"cache_cfg": cache_cfg, "history": history})
+        _judge([list(o) for o in history], cache_cfg, st, scratch)
     if chunk:
         st.sample({"cache_cfg": chunk[0][0], "history": chunk[0][1]})
+
+
+def _stage_obs(o):
+    return W.jd([o["t1"], o["t2"]])
+
+
+def _sweep_worker(chunk, st: Stats, scratch):
+    """One item = (cache configuration, first change M or None, text, changes P): the plain repetition under M, then
+    every listed catalogue change P between the two turns."""
+    import logging
+    logging.disable(logging.CRITICAL)
+    for cache_cfg, m, text, params in chunk:
+        t = ["T", "A", text]
+        pre = [["CFG", m]] if m is not None else []
+        base_off = None
+        if m is not None:
+            base_off = _judge(pre + [t, t], cache_cfg, st, scratch)
+            st.add("sweep_histories")
+        for p in params:
+            h = pre + [t, ["CFG", p], t]
+            off = _judge(h, cache_cfg, st, scratch)
+            st.add("sweep_histories")
+            if any("cfg_rejected" in (o["t1"] or {}) for o in off):
+                st.add("sweep_histories_cfg_rejected_by_validator")
+                continue
+            # anti-vacuity: with caches off, the change visibly alters the second turn in this context
+            ref = base_off[-1] if base_off is not None else off[0]
+            if _stage_obs(off[-1]) != _stage_obs(ref):
+                st.distinct("sweep_params_biting", p)
+                st.add("sweep_histories_where_the_change_bites")
+    if chunk and chunk[0][3]:
+        cc, m, text, params = chunk[0]
+        st.sample({"cache_cfg": cc, "history": ([["CFG", m]] if m else []) + [["T", "A", text], ["CFG", params[0]], ["T", "A", text]]})
+
+
+def sweep_groups(thorough):
+    """work items of the sweep leg.  quick: P alone under both stage-cache kinds, and under every mode entry M the
+    changes P that address the same stage as M (all of them when M is a gate / scheduler / graph-layer entry), text
+    'pear fig' (seeds in all three graphs), LRU+TTL caches.  thorough: every ordered pair (M, P) of the catalogue,
+    both texts, both stage-cache kinds."""
+    texts = ("apple", "pear fig") if thorough else ("pear fig",)
+    allp = tuple(SWEEP_PARAMS)
+    groups = [(cc, None, x, allp) for cc in SWEEP_CACHE_CONFIGS for x in texts]
+    if thorough:
+        groups += [(cc, m, x, allp) for cc in SWEEP_CACHE_CONFIGS for m in allp for x in texts]
+    else:
+        for m in SWEEP_MODES:
+            sm = _stage_of(m)
+            ps = allp if sm == "both" else tuple(p for p in allp if _stage_of(p) in (sm, "both"))
+            groups += [(SWEEP_CACHE_CONFIGS[0], m, x, ps) for x in texts]
+    return groups
 
 
 def histories(depth, extra_first=()):
@@ -399,6 +694,26 @@ def run(run: Run) -> None:
     if W.jd(a) != W.jd(b):
         raise HarnessError("harness nondeterministic on %r" % (hs[0],))
     run.pmap(_worker, items, extra=(run.scratch,), chunks=256 if run.thorough else 64)
+    # second leg: configuration-parameter sweep (see SWEEP)
+    groups = sweep_groups(run.thorough)
+    run.notes["sweep_catalogue"] = len(SWEEP_PARAMS)
+    run.notes["sweep_first_changes"] = len({g[1] for g in groups if g[1] is not None})
+    run.notes["sweep_keys_left_out_on_purpose"] = dict(NOT_SWEPT)
+    run.notes["sweep_accepted_keys_unaccounted"] = sweep_key_gaps()
+    run.rule += ("; plus the configuration sweep: for each of %d catalogued single-parameter changes P (the t1.* / t2.* keys the "
+                 "validator accepts, the perf.* and scheduler knobs the two stages read, at zero / one / extreme values; keys left out "
+                 "are listed with reasons) the histories [turn, P, turn] under both stage-cache kinds and [M, turn, turn], "
+                 "[M, turn, P, turn] for M over %s; same twin oracle; a change counts as exercised only where it alters the "
+                 "caches-off result (distinct_sweep_params_biting)"
+                 % (len(SWEEP_PARAMS), "the whole catalogue x both stage-cache kinds x both texts" if run.thorough else
+                    "the %d mode-selecting entries with P addressing the same stage (LRU+TTL caches, text 'pear fig')" % len(SWEEP_MODES)))
+    run.pmap(_sweep_worker, groups, extra=(run.scratch,), chunks=len(groups))
+    run.assume("configuration sweep: examines the two stage caches; the turn-level manager is switched off in both twin runs of that leg, because "
+               "its blindness to configuration changes while the state version does not move is the listed known finding and is not re-derived per parameter")
+    run.assume("not judged: the reporting fields that exist only under perf.enabled + perf.metrics.report_memory (T2 metrics t2.* / t2q.*, T1 counters "
+               "t1_frontier_evicted / t1_dedup_hits / t1_visited_evicted) - a cached result carries those of the turn that computed it")
+    run.assume("a turn in which the engine raises is an observation like any other (compared between the twin runs); a combination of changes "
+               "the validator refuses is skipped in both twin runs and counted")
     run.assume("approved delta lists are empty in these worlds (rule-based plans carry no deltas); apply still bumps the version and invalidates")
     run.assume("TTL expiry is driven through injected clocks for the LRU+TTL stage caches and the turn-level manager; byte-bounded caches have no TTL")
 
